@@ -6,7 +6,10 @@ through call history or through the form of the input is seen by the check of TH
   with option sets that touch shared helpers, calls that raise.  On a library whose results depend only on input and options this changes nothing.
 * input-form independence (C19): a fraction of the calls hand the text over as a text stream or as UTF-8 bytes instead of a str.
 
-Both are transparent on the unchanged tree (they are exactly what C19/C20 assert), so they cannot cause a false alarm of the host property; a
+* first use under contention (C20): before the check proper, `first_use_probe` starts fresh interpreters in which eight threads make their first
+  calls at the same moment and compares every thread's results with the single-threaded ones.
+
+All are transparent on the unchanged tree (they are exactly what C19/C20 assert), so they cannot cause a false alarm of the host property; a
 failure seen under chaos carries `chaos` in its replay record (the noise history of the process and the form of the last call), and
 `./check <id> --replay` re-creates that before replaying.  Disabled with VERIF_CHAOS=0.
 """
@@ -205,6 +208,60 @@ def install(seed, force_form=None):
         return real(_formed(sql, form) if form == 'stream' else sql, encoding)
     _lexer.tokenize = tokenize
     STATE['installed'] = True
+
+
+PROBE = r"""
+import sys, threading, json
+sys.setswitchinterval(1e-6)
+import sqlparse
+TEXTS = %r
+def obs(t):
+    sts = sqlparse.parse(t)
+    return [[(str(x.ttype), x.value) for x in st.flatten()] for st in sts], [st.get_type() for st in sts], [type(c).__name__ for st in sts for c in st.tokens], \
+        sqlparse.split(t), sqlparse.format(t, reindent=True, keyword_case='upper'), sqlparse.format(t, strip_comments=True, use_space_around_operators=True)
+N = 8
+res = {}
+bar = threading.Barrier(N)
+def work(i):
+    bar.wait()
+    try:
+        res[i] = [obs(t) for t in (TEXTS[i %% len(TEXTS):] + TEXTS[:i %% len(TEXTS)])]
+    except Exception as e:
+        res[i] = 'raised ' + repr(e)
+ths = [threading.Thread(target=work, args=(i,)) for i in range(N)]
+[t.start() for t in ths]; [t.join() for t in ths]
+ref = {t: obs(t) for t in TEXTS}
+bad = []
+for i in range(N):
+    order = TEXTS[i %% len(TEXTS):] + TEXTS[:i %% len(TEXTS)]
+    if isinstance(res.get(i), str):
+        bad.append([order[0], res[i], 'no exception']); continue
+    for t, r in zip(order, res[i]):
+        if json.dumps(r) != json.dumps(ref[t]):
+            k = [j for j in range(6) if json.dumps(r[j]) != json.dumps(ref[t][j])][0]
+            bad.append([t, json.dumps(r[k])[:300], json.dumps(ref[t][k])[:300]]); break
+print(json.dumps(bad))
+"""
+
+
+def first_use_probe(repo, runs=3):
+    """fresh interpreters in which eight threads make their FIRST calls into the library at the same moment (whatever the library sets up lazily
+    is set up under contention); every thread's results must equal the single-threaded results obtained afterwards in the same process.
+    Returns [(text, observed, required)] — empty on a library whose one-time initialisation is properly published."""
+    import subprocess, sys, json
+    texts = NOISE_TEXTS + ["with x as (select 1) insert into t select * from x", "create or replace view v as select a from t"]
+    out = []
+    for _ in range(runs):
+        try:
+            p = subprocess.run([sys.executable, '-c', PROBE % (texts,)], stdout=subprocess.PIPE, stderr=subprocess.PIPE, timeout=120,
+                               env=dict(os.environ, PYTHONPATH=repo))
+            bad = json.loads(p.stdout.decode() or '[]') if p.returncode == 0 else [['<probe>', 'probe exited with status %d: %s' % (p.returncode, p.stderr.decode()[-200:]), 'status 0']]
+        except Exception as e:
+            bad = []
+        out += [tuple(b) for b in bad]
+        if out:
+            break
+    return out
 
 
 def snapshot():
